@@ -187,9 +187,16 @@ impl WireEncode for DpPath {
             Self::Standard(standard_path) => standard_path.wire_valid()?,
             Self::OneHop(onehop_path) => onehop_path.wire_valid()?,
             Self::Empty => {}
-            Self::Unsupported { path_type: _, data } => {
+            Self::Unsupported { path_type, data } => {
                 if !data.len().is_multiple_of(4) {
                     return Err("Path data must be a multiple of 4 bytes".into());
+                }
+                // Raw data under a supported path type would be decoded as that path type.
+                if matches!(
+                    PathType::from(u8::from(*path_type)),
+                    PathType::Empty | PathType::Scion | PathType::OneHop
+                ) {
+                    return Err("Unsupported path must not carry a supported path type".into());
                 }
             }
         }
